@@ -667,6 +667,13 @@ func (r *c5Run) lateUpdate(n *c5Node) {
 	ops := r.genCtxOps(fmt.Sprintf("u%d_", r.nEv+len(r.nodes)))
 	reset := r.ch.Chance(1, 3)
 	r.task().seen = nil
+	if r.ch.Chance(1, 4) {
+		// the application has registered this very logger as the fallback for contexts without
+		// one; it is still its own logger, and updating it works as before
+		zerolog.DefaultContextLogger = &n.lg
+		zsim.Probe("update_of_default_context_logger")
+		defer func() { zerolog.DefaultContextLogger = nil }()
+	}
 	n.lg.UpdateContext(func(c zerolog.Context) zerolog.Context {
 		if reset {
 			c = c.Reset()
@@ -762,7 +769,11 @@ func (r *c5Run) contextBranch() {
 func (c05World) Run(prop string, ch *zsim.Choices, trace bool) *RunResult {
 	r := &c5Run{ch: ch, tasks: map[int]*c5Task{}}
 	oldTS, oldSM := zerolog.TimestampFunc, zerolog.ErrorStackMarshaler
-	defer func() { zerolog.TimestampFunc, zerolog.ErrorStackMarshaler = oldTS, oldSM; ctxProbe = nil }()
+	defer func() {
+		zerolog.TimestampFunc, zerolog.ErrorStackMarshaler = oldTS, oldSM
+		ctxProbe = nil
+		zerolog.DefaultContextLogger = nil
+	}()
 	summary := ""
 	main := func() {
 		s := zsim.S
